@@ -26,7 +26,7 @@ TOK = ["B", "H", "I", "Q", "b", "h", "i", "q", "2x", "4s", "HB", "IH", "BBH"]
 
 def plan(tier, seed):
     if tier == "quick":
-        return [dict(seed=seed, shard=i, n=1500) for i in range(16)]
+        return [dict(seed=seed, shard=i, n=4000) for i in range(16)]
     return [dict(seed=seed, shard=i, n=25000) for i in range(32)]
 
 
